@@ -61,6 +61,11 @@ var c12Templates = []c12Tmpl{
 	{"sel-null-safe", "SELECT id FROM t WHERE a <=> ?", []string{"any"}, false},
 	{"sel-limit", "SELECT id FROM t ORDER BY id LIMIT ?", []string{"small"}, false},
 	{"ins", "INSERT INTO t (id, a, s) VALUES (?, ?, ?)", []string{"int", "int", "str"}, true},
+	// no column list / SELECT *: what the statement means follows the table's current columns
+	{"ins-nocols", "INSERT INTO t VALUES (?, ?, ?)", []string{"int", "int", "str"}, true},
+	{"rep-nocols", "REPLACE INTO t VALUES (?, ?, ?)", []string{"int", "int", "str"}, true},
+	{"sel-star", "SELECT * FROM t WHERE id = ?", []string{"int"}, false},
+	{"ins-sel-star", "INSERT INTO t SELECT * FROM t2 WHERE id = ?", []string{"int"}, true},
 	{"upd", "UPDATE t SET a = ? WHERE id = ?", []string{"int", "int"}, true},
 	{"upd-str", "UPDATE t SET s = ? WHERE a >= ?", []string{"str", "int"}, true},
 	{"del", "DELETE FROM t WHERE a < ?", []string{"int"}, true},
@@ -110,6 +115,10 @@ func checkC12(env *kernel.Env) {
 	}
 	ddl := "CREATE TABLE t (id INT PRIMARY KEY, a INT, s VARCHAR(12), KEY ka (a))"
 	both(ddl)
+	both("CREATE TABLE t2 (id INT PRIMARY KEY, a INT, s VARCHAR(12))")
+	for i := 0; i < 6; i++ {
+		both(fmt.Sprintf("INSERT INTO t2 VALUES (%d, %d, 'src%d')", 100+i, i, i))
+	}
 	for i, n := 0, T.Range(4, 12); i < n; i++ {
 		both(fmt.Sprintf("INSERT INTO t VALUES (%d, %d, %s)", i, T.Draw(10), c12Lit(c12Strings[T.Draw(len(c12Strings))]).lit))
 	}
@@ -137,7 +146,13 @@ func checkC12(env *kernel.Env) {
 				fmt.Sprintf("INSERT INTO t (id, a, s) VALUES (%d, %d, 'adm')", 20+T.Draw(10), T.Draw(10)),
 				fmt.Sprintf("DELETE FROM t WHERE id = %d", T.Draw(12)),
 				"ALTER TABLE t MODIFY COLUMN a BIGINT",
-			}[T.Draw(9)]
+				"ALTER TABLE t MODIFY COLUMN a INT FIRST",
+				"ALTER TABLE t MODIFY COLUMN a INT AFTER id",
+				"ALTER TABLE t RENAME COLUMN s TO s2",
+				"ALTER TABLE t RENAME COLUMN s2 TO s",
+				"ALTER TABLE t MODIFY COLUMN s VARCHAR(12) FIRST",
+				"ALTER TABLE t MODIFY COLUMN s VARCHAR(12) AFTER a",
+			}[T.Draw(15)]
 			c1, c2 := both(q)
 			env.Kind("admin")
 			env.Logf("admin: %s -> %s | %s", q, c1, c2)
